@@ -5,7 +5,7 @@ from ..terms import *
 from ..absint import Interp, iter_effects, collect_acc
 from ..loader import AnalysisError
 from ..optparse_facts import parser_facts
-from .. import lpfacts, spec
+from .. import lp, lpfacts, spec
 
 RULES = {
     'C16.R1': 'ordering helper = scatter at (position - 1) into one slot per criterion + ascending compaction of non-sentinel slots (=> sorted by position, gaps allowed)',
@@ -486,3 +486,22 @@ def check_info_lines(rep, repo, tier):
     st = [e for e in r.of('store') if e.eff.target[0] == 'attr' and e.eff.target[2] == 'info_string' and lpfacts.lp.is_model(e.eff.target[1])]
     rep.check(bool(st), 'C16.R7', repo.method('LP_Solver', 'run').where, 'the accumulated lines are handed to the model for printing',
               got=[show(e.eff.target) for e in st], want='model.info_string = self.info_string', construct='info_string handoff')
+    # ... and the model prints them: every result text contains model.info_string
+    gr = repo.method('Model', 'get_results')
+    try:
+        _, text = Interp(repo).run(gr, {p_: S(p_) for p_ in gr.params[1:]}, selfterm=lp.MODEL)
+    except Unknown as u:
+        rep.inconclusive('C16.R7', gr.where, 'get_results is inside the interpreted fragment', got=str(u))
+        return
+    alts = []
+    def split(t):
+        if t[0] == 'ite':
+            split(t[2]); split(t[3])
+        elif t != NONE:
+            alts.append(t)
+    split(text)
+    texts = [t for t in alts if contains(t, lambda y: y[0] == 'const' and isinstance(y[1], str) and len(y[1]) > 3)]
+    info = A(lp.MODEL, 'info_string')
+    missing = [t for t in texts if not contains(t, lambda y: y == info)]
+    rep.check(bool(texts) and not missing, 'C16.R7', gr.where, "every result text prints the '- optimisation:' lines recorded for the run (model.info_string)",
+              got='%d of %d texts do not contain model.info_string' % (len(missing), len(texts)), want='results += self.info_string', construct='info lines not printed')
